@@ -119,7 +119,8 @@ CHECKS = {
     },
     'C09': {
         'text': 'Design model PluginChain.tla of the plugin chain of one connection (before_upstream_connection -> resolve_dns -> connect -> '
-                'handle_client_request -> forward -> handle_upstream_chunk -> access-log chain -> on_upstream_connection_close) over '
+                'handle_client_request -> forward -> handle_upstream_chunk -> access-log chain -> on_upstream_connection_close; '
+                'handle_client_data for further client data when no upstream was wanted) over '
                 'PROGRAMS (each plugin passes / modifies / drops / rejects per hook) x auth x endings x 3 requests; TLC checks '
                 'ChainOrder, SeenChain, DropSuppresses, RejectClean, BadAuthClean, LifecycleOnce, DnsFirstWins exhaustively. tlc -simulate behaviours '
                 'name programs; plugin classes are synthesised from them and the REAL handler + HttpProxyPlugin execute the conversation; '
